@@ -100,7 +100,8 @@ var C19Floats = []float64{0, math.Copysign(0, -1), 1, -1, 1.5, 1e21, 1e-7, 1e-6,
 
 // C19ValueCfg steers C19Value.
 type C19ValueCfg struct {
-	NaN bool // allow NaN/Inf floats (Marshal must report an error, never panic)
+	NaN       bool // allow NaN/Inf floats (Marshal must report an error, never panic)
+	MaxMapLen int  // maximal number of map entries (0 = 3); 1 makes output independent of map order
 }
 
 // C19Value returns a random value of type t.
@@ -162,7 +163,11 @@ func c19Value(r *rand.Rand, t reflect.Type, c *C19ValueCfg, depth int) reflect.V
 			return v
 		}
 		m := reflect.MakeMap(t)
-		for i := r.IntN(4); i > 0; i-- {
+		maxLen := 3
+		if c.MaxMapLen > 0 {
+			maxLen = c.MaxMapLen
+		}
+		for i := r.IntN(maxLen + 1); i > 0; i-- {
 			m.SetMapIndex(c19Value(r, t.Key(), c, depth+1), c19Value(r, t.Elem(), c, depth+1))
 		}
 		v.Set(m)
@@ -193,7 +198,11 @@ func c19Value(r *rand.Rand, t reflect.Type, c *C19ValueCfg, depth int) reflect.V
 		case 5:
 			if depth < 5 {
 				m := map[string]any{}
-				for i := r.IntN(3); i > 0; i-- {
+				maxLen := 2
+				if c.MaxMapLen > 0 {
+					maxLen = min(maxLen, c.MaxMapLen)
+				}
+				for i := r.IntN(maxLen + 1); i > 0; i-- {
 					m[C19Strs[r.IntN(len(C19Strs))]] = c19Value(r, t, c, depth+1).Interface()
 				}
 				v.Set(reflect.ValueOf(m))
